@@ -227,3 +227,9 @@ package slayers
 //@   ensures result2 == nil ==> result0 == packedType(host) && len(result1) == packedLen(host)
 //@   ensures result2 == nil ==> forall j int :: 0 <= j && j < len(result1) ==> result1[j] == packedByte(host, j)
 //@   ensures result2 == nil ==> (len(result1) == 4 && (result0 == T4Ip || result0 == T4Svc)) || (len(result1) == 16 && result0 == T16Ip)
+
+//@ # ---- C09: size of the SCMP header plus info block per message type (used to bound the quote)
+//@ func ScmpHeaderSize
+//@   props C09
+//@   modifies nothing
+//@   ensures result == ite(typeCode == SCMPTypeExternalInterfaceDown, 20, ite(typeCode == SCMPTypeInternalConnectivityDown, 28, ite(typeCode == SCMPTypeTracerouteRequest || typeCode == SCMPTypeTracerouteReply, 24, 8)))
